@@ -20,6 +20,15 @@ NOTES = {   # what happened on the FIRST trial of a change, and what was strengt
     "C06-2": "a defect of the balancer (loadBalancer.Remove) with a routing symptom: C06's clusters use scripted upstream sets and do not go through go-away double removal; C05 and C15 decide it.",
     "C18-1": "first trial: MISSED by C18 (single-loss scenarios only: the leaver never remembered an earlier departure). Scenarios now include a fourth node that left or crashed before the loss; notified-not-left counts as recorded-state evidence when Shutdown returned without any timeout (the failure depends on the shuffle of the leaver's peers).",
     "C18-2": "first trial: MISSED by C18 (with two survivors everybody is notified directly), C03/C11 only disagreed. C18 got a six-node scenario (Leave notifies four of five peers, the fifth must end as left, not unreachable) and the rule rest-not-following; C03's convergence phase now removes nodes that left from the rounds, so their final state has to reach everybody through relays, and counts them in the verdict.",
+    "C08-3": "round 2. First trial: C08 only disagreed on the corpus (C01 reports the wrong endpoint).",
+    "C08-4": "round 2. First trial: MISSED (no client of the harness ever half-closed). Clients that shut down their sending side while the upstream takes its time are now part of the corpus and the generator (environment faults: monitor only, left out of the Coq comparison).",
+    "C13-3": "round 2. First trial: MISSED (every stream peer of the harness read the reply). The hostile mode now has a peer that sends a valid join (built with the real encoder) and never reads: the handler has to give up at its stream timeout.",
+    "C14-3": "round 2. First trial: MISSED (sequential histories only). Concurrency probe race_expire: a node re-learned from digests/deltas on two goroutines while a third suspects and expires it; the recorded notifications must still fold to the final state (they did not: join of an already announced node).",
+    "C16-3": "round 2. First trial: MISSED (no tenant verifier in the harness). Multi-tenant scenarios: the token's expiry must survive MultiTenantVerifier.",
+    "C17-3": "round 2. First trial: MISSED by C17 (sequential), reported by C20's stress harness. Concurrency probe race_compact: fresh keys written while another goroutine deletes a scratch key and compacts; every one of them must be live afterwards.",
+    "C15-3": "round 2. First trial: MISSED by C15 (its concurrent mode compared only the quiescent registry), C20's race build reported the data race. Selection storms: 6 goroutines x 12000 selections over a stable set must be one global rotation (totals differ by at most 1) - under the read lock the selector indexed out of range.",
+    "C11-4": "round 2. The syncer promoting a pending node as Active although gossip holds it unreachable: C04 (routing status mirrors the membership flags) decides it; C11's monitor watches the gossip layer, where nothing changes.",
+    "C18-3": "round 2. The same mechanism as C16-1 seen from C18 (a node shutting down keeps expiring-token upstreams): C16 decides it; C18's clusters run without authentication.",
     "C05-1": "C20: the regenerated lock-edge table no longer satisfies the lock-order proof (the translator half of the tie), and the stress harness shows the stale advertisement.",
 }
 
